@@ -67,25 +67,27 @@ private:
 };
 
 // although iterator_adaptor defines these, the default implementation computes distance and compares for zero.
-// it is often faster to just apply the relation operator to the base
+// it is often faster to just compare the positions of the bases: the adaptor moves its base in memory units,
+// so it is the memory unit distance of the bases that orders two adaptors, not the base's own operator<
+// (a base that is itself a step iterator with a negative step orders its positions the other way round)
 template <typename D,typename Iterator,typename SFn> inline
 bool operator>(const step_iterator_adaptor<D,Iterator,SFn>& p1, const step_iterator_adaptor<D,Iterator,SFn>& p2) {
-    return p1.step()>0 ? p1.base()> p2.base() : p1.base()< p2.base();
+    return p1.step()>0 ? memunit_distance(p2.base(),p1.base())> 0 : memunit_distance(p2.base(),p1.base())< 0;
 }
 
 template <typename D,typename Iterator,typename SFn> inline
 bool operator<(const step_iterator_adaptor<D,Iterator,SFn>& p1, const step_iterator_adaptor<D,Iterator,SFn>& p2) {
-    return p1.step()>0 ? p1.base()< p2.base() : p1.base()> p2.base();
+    return p1.step()>0 ? memunit_distance(p1.base(),p2.base())> 0 : memunit_distance(p1.base(),p2.base())< 0;
 }
 
 template <typename D,typename Iterator,typename SFn> inline
 bool operator>=(const step_iterator_adaptor<D,Iterator,SFn>& p1, const step_iterator_adaptor<D,Iterator,SFn>& p2) {
-    return p1.step()>0 ? p1.base()>=p2.base() : p1.base()<=p2.base();
+    return p1.step()>0 ? memunit_distance(p2.base(),p1.base())>=0 : memunit_distance(p2.base(),p1.base())<=0;
 }
 
 template <typename D,typename Iterator,typename SFn> inline
 bool operator<=(const step_iterator_adaptor<D,Iterator,SFn>& p1, const step_iterator_adaptor<D,Iterator,SFn>& p2) {
-    return p1.step()>0 ? p1.base()<=p2.base() : p1.base()>=p2.base();
+    return p1.step()>0 ? memunit_distance(p1.base(),p2.base())>=0 : memunit_distance(p1.base(),p2.base())<=0;
 }
 
 template <typename D,typename Iterator,typename SFn> inline
